@@ -148,6 +148,9 @@ def evaluate(case, seed=0):
     try:
         with np.errstate(all="ignore"):
             out["sigma_v"] = lens.sigma_v_measured_vs_predict(cosmo, kwargs_lens=h["kwargs_lens"], kwargs_kin=h["kwargs_kin"], kwargs_los=h["kwargs_los"])
+            if case["stream"] == "sharp":
+                # the same dictionaries again (kin_fit / plot_kin_fit walk over the lenses with ONE set of dictionaries)
+                out["sigma_v_again"] = lens.sigma_v_measured_vs_predict(cosmo, kwargs_lens=h["kwargs_lens"], kwargs_kin=h["kwargs_kin"], kwargs_los=h["kwargs_los"])
             out["ddt_dd"] = lens.ddt_dd_model_prediction(cosmo, kwargs_lens=h["kwargs_lens"], kwargs_los=h["kwargs_los"])
             out["ddt_meas"] = lens.ddt_measurement()
             out["dist"] = lens.angular_diameter_distances(cosmo)
@@ -170,6 +173,13 @@ def oracle(case, out, lens, cosmo):
     gam = h["kwargs_lens"].get("gamma_ppn", 1)
     sharp = case["stream"] == "sharp"
     m, cm, p, cp = out["sigma_v"]
+    if lt in lc.KIN_TYPES and sharp and out.get("sigma_v_again") is not None and m is not None:
+        again = out["sigma_v_again"]
+        same = all((a is None and b is None) or (a is not None and b is not None and np.array_equal(np.asarray(a), np.asarray(b)))
+                   for a, b in zip(out["sigma_v"], again))
+        if not same:
+            fails.append("the velocity-dispersion report asked for a second time with the same dictionaries differs from the first "
+                         "(measurement covariance diag %r then %r)" % (np.diag(np.atleast_2d(cm)).tolist(), np.diag(np.atleast_2d(again[1])).tolist()))
     if lt in lc.KIN_TYPES:
         if m is None:
             return ["no velocity-dispersion report for a kinematic type"]
